@@ -30,7 +30,7 @@ def run(d):
         return name, "silent" if not fired else "FALSE ALARM", fired
     finally:
         shutil.rmtree(tmp, ignore_errors=True)
-with ThreadPoolExecutor(8) as ex:
+with ThreadPoolExecutor(14) as ex:
     res = list(ex.map(run, diffs))
 bad = 0
 for name, st, fired in res:
